@@ -122,6 +122,14 @@ def r_wrappers(chk, P, tier):
         calls = {c[1] for t in r for c in find_calls(t)}
         others = {c for c in calls if c.startswith(U + "from_timestamp") and c != U + target}
         chk.expect(U + target in calls and not others, w, "%s does not delegate to %s only: %s" % (w, target, sorted(c.split("::")[-1] for c in calls)), loc=P.loc(fn))
+    chk.rule("DOM.wrappers", "no wrapper decides on its own: every return of TimeZone::timestamp_* lies behind the call of the DateTime::<Utc>::from_timestamp* it wraps", floor=4)
+    for w, target in (("timestamp_opt", "from_timestamp"), ("timestamp_millis_opt", "from_timestamp_millis"), ("timestamp_micros", "from_timestamp_micros"), ("timestamp_nanos", "from_timestamp_nanos")):
+        fn = "offset::TimeZone::" + w
+        paths = [p_ for p_ in Sym(P, fn).paths() if p_.end[0] == "return"]
+        if not paths:
+            raise AnchorLost(fn + " has no return path")
+        bad = [p_ for p_ in paths if not any(c[1] == U + target for c in p_.calls)]
+        chk.expect(not bad, w, "%s returns on %d of %d paths without having called %s (a rejection or result of its own)" % (w, len(bad), len(paths), target), loc=P.loc(fn))
 
 
 def r_absint(chk, P, tier):
